@@ -172,11 +172,8 @@ def lockup_signature(prop, stderr):
             continue
         state = m.group(1)
         frames = re.findall(r"^([\w./\-]+(?:\([^)]*\))?[\w.\-]*)\(", b, re.M)
-        if state.startswith("sleep") or "time.Sleep" in b:
-            hs = [i for i, f in enumerate(frames) if f.startswith("verif/sim/world.")]
-            ps = [i for i, f in enumerate(frames) if f.startswith("perun.network/go-perun/")]
-            if hs and ps and min(hs) < max(ps):
-                return None, None  # a seam sleeps beneath repository code: harness artifact, not a verdict
+        # (seams never park while a standard mutex of the instrumented packages is held - Sim.UnderStdMutex -,
+        # so a goroutine asleep in a seam beneath repository code is a bystander of the stall, not its cause)
         if "sync.Mutex.Lock" in state or "sync.RWMutex" in state:
             pf = [f for f in frames if f.startswith("perun.network/go-perun/") and "/log." not in f]
             if pf and site is None:
